@@ -140,6 +140,9 @@ func (c *conn) open(buf []byte) error {
 }
 
 func (c *conn) write(data []byte) (n int, err error) {
+	if !c.opened {
+		return 0, net.ErrClosed
+	}
 	isET := c.loop.engine.opts.EdgeTriggeredIO
 	n = len(data)
 	// If there is pending data in outbound buffer,
@@ -185,6 +188,9 @@ loop:
 }
 
 func (c *conn) writev(bs [][]byte) (n int, err error) {
+	if !c.opened {
+		return 0, net.ErrClosed
+	}
 	isET := c.loop.engine.opts.EdgeTriggeredIO
 
 	for _, b := range bs {
